@@ -99,7 +99,7 @@ def gen_case(rng):
         tol = rng.choice([0.25, 0.5, 0.75, 1, 1.0, 2, 0.1])
     # tuple form
     form = rng.choice(['full', 'full', 'short', 'ellipsis'])
-    return {"a": sp, "idx": idx, "ikinds": kinds, "by": by, "tolmode": tolmode, "tol": tol, "form": form,
+    return {"a": sp, "idx": idx, "ikinds": kinds, "by": by, "tolmode": tolmode, "tol": tol, "form": form, "flip": rng.random() < 0.25,
             "ellpos": rng.randint(0, nd) if nd else 0, "chain_by_pos": rng.random() < 0.5}
 
 
@@ -171,6 +171,11 @@ def check(case, ctx):
     tolmode, tol = case["tolmode"], case["tol"]
     with common.options(**{"indexing.by": by}):
         a = gen.build(sp)
+        if case.get("flip"):
+            # the option changes after the array was built: a[...] and .ix follow the mode the array captured,
+            # .loc / .iloc / explicit indexing= keep their meaning
+            da_ = __import__("vp.boot", fromlist=["boot"]).boot()
+            da_.rcParams['indexing.by'] = 'position' if by == 'label' else 'label'
         # ---- model
         exp = exp_exc = None
         try:
@@ -262,7 +267,7 @@ def check(case, ctx):
                 common.expect(ctx, ID, "pos", full_label, res, exc, exp=exp)
     if not nontriv:
         return None
-    return (nd, tuple(zip(sp["kinds"], [order_of(l) for l in sp["labels"]], case["ikinds"])), case["form"], by, tolmode,
+    return (nd, tuple(zip(sp["kinds"], [order_of(l) for l in sp["labels"]], case["ikinds"])), case["form"], by, bool(case.get("flip")), bool(sp.get("prime")), tolmode,
             'absent' if exp_exc else 'present')
 
 
